@@ -35,9 +35,38 @@ pub struct CloneCase {
     pub scripts: Vec<Vec<CStep>>,
     pub sched_seed: u64,
     pub policy: Policy,
+    /// per handle: I/O failures of that handle's OWN cloned reader (call index after the clone was taken).
+    /// A faulty handle may observe anything but a panic; every other handle must be unaffected.
+    #[serde(default)]
+    pub faults: Vec<Vec<(u64, Decision)>>,
 }
 
 pub struct Clones;
+
+/// faults for all handles but (at least) one
+pub fn gen_handle_faults(r: &mut Rng, handles: usize) -> Vec<Vec<(u64, Decision)>> {
+    let clean = r.usize_below(handles);
+    (0..handles)
+        .map(|k| {
+            if k == clean || r.chance(1, 2) {
+                vec![]
+            } else {
+                (0..r.range(1, 3)).map(|_| (r.below(16), r.pickc(&[Decision::Fail(EK::Other), Decision::Fail(EK::Other), Decision::EofEarly, Decision::Eintr]))).collect()
+            }
+        })
+        .collect()
+}
+
+fn handle_policy(base: &Policy, faults: &[Vec<(u64, Decision)>], k: usize) -> Policy {
+    match faults.get(k) {
+        Some(f) if !f.is_empty() => Policy::Explicit(f.clone()),
+        _ => base.clone(),
+    }
+}
+
+fn is_faulty(faults: &[Vec<(u64, Decision)>], k: usize) -> bool {
+    faults.get(k).map(|f| !f.is_empty()).unwrap_or(false)
+}
 
 /// run one script against an archive handle; `gate` is called before every step (the scheduler's hook)
 /// The harness must build whatever the auto traits of `ZipArchive` are: whether the handle is `Send + Sync`
@@ -209,7 +238,8 @@ impl Scenario for Clones {
         let l = gen_clone_layout(&mut r);
         let handles = r.range(2, 4) as usize;
         let scripts = gen_scripts(&mut r, &l, handles);
-        let case = CloneCase { layout: l, scripts, sched_seed: Rng::derive(s, "schedule").next_u64(), policy: gen_policy_short(&mut Rng::derive(s, "io")) };
+        let faults = if Rng::derive(s, "swarm").chance(1, 3) { gen_handle_faults(&mut Rng::derive(s, "faults"), handles) } else { vec![] };
+        let case = CloneCase { layout: l, scripts, sched_seed: Rng::derive(s, "schedule").next_u64(), policy: gen_policy_short(&mut Rng::derive(s, "io")), faults };
         serde_json::to_value(case).unwrap_or(Value::Null)
     }
     fn run(&self, case: &Value, ctx: &mut Ctx) -> Verdict {
@@ -236,7 +266,13 @@ impl Scenario for Clones {
             }
         }
         // interleaved: clones of ONE archive, one thread per handle, one step released at a time
-        let base = match ZipArchive::new(SimDisk::new(store.clone(), c.policy.clone())) {
+        let mut base_disk = SimDisk::new(store.clone(), c.policy.clone());
+        if c.faults.iter().any(|f| !f.is_empty()) {
+            let q: std::collections::VecDeque<Policy> = (0..c.scripts.len()).map(|k| handle_policy(&c.policy, &c.faults, k)).collect();
+            base_disk.clone_policies = Some(std::sync::Arc::new(std::sync::Mutex::new(q)));
+            ctx.probe("a_handle_had_a_faulty_reader");
+        }
+        let base = match ZipArchive::new(base_disk) {
             Ok(a) => a,
             Err(e) => return Verdict::Skip(format!("archive does not open: {}", zerr_pub(&e))),
         };
@@ -309,11 +345,14 @@ impl Scenario for Clones {
         }
         ctx.io_events += order.len() as u64;
         for (k, (a, s)) in logs.iter().zip(solo.iter()).enumerate() {
+            if is_faulty(&c.faults, k) {
+                continue; // its own reader failed: it may see errors (never a panic); the others may not notice
+            }
             if a != s {
                 let at = a.iter().zip(s.iter()).position(|(x, y)| x != y).unwrap_or(a.len().min(s.len()));
                 return viol(
                     "C20/handle-observation-differs",
-                    format!("handle {k}, log line {at}: interleaved {:?} vs alone {:?}; interleaving {:?}", a.get(at), s.get(at), order.iter().take(40).collect::<Vec<_>>()),
+                    format!("handle {k}, log line {at}: interleaved {:?} vs alone {:?}; interleaving {:?}; handles with a failing reader: {:?}", a.get(at), s.get(at), order.iter().take(40).collect::<Vec<_>>(), (0..c.scripts.len()).filter(|k| is_faulty(&c.faults, *k)).collect::<Vec<_>>()),
                 );
             }
         }
@@ -333,8 +372,15 @@ impl Scenario for Clones {
             for i in 0..c.scripts.len() {
                 let mut v = c.scripts.clone();
                 v.remove(i);
-                out.push(CloneCase { scripts: v, ..c.clone() });
+                let mut fv = c.faults.clone();
+                if i < fv.len() {
+                    fv.remove(i);
+                }
+                out.push(CloneCase { scripts: v, faults: fv, ..c.clone() });
             }
+        }
+        if c.faults.iter().any(|f| !f.is_empty()) {
+            out.push(CloneCase { faults: vec![], ..c.clone() });
         }
         for i in 0..c.scripts.len() {
             for j in (0..c.scripts[i].len()).rev() {
@@ -366,6 +412,9 @@ pub struct ShuttleCase {
     pub sched_seed: u64,
     /// false: uniform random scheduler; true: PCT with the given depth
     pub pct: Option<u32>,
+    /// as in part A: failures of individual handles' own readers
+    #[serde(default)]
+    pub faults: Vec<Vec<(u64, Decision)>>,
 }
 
 pub struct ClonesShuttle;
@@ -402,7 +451,8 @@ impl Scenario for ClonesShuttle {
         }
         let handles = r.range(2, 4) as usize;
         let scripts = gen_scripts(&mut r, &l, handles);
-        let case = ShuttleCase { layout: l, scripts, sched_seed: Rng::derive(s, "schedule").next_u64(), pct: if r.chance(1, 2) { Some(r.range(1, 5) as u32) } else { None } };
+        let faults = if Rng::derive(s, "swarm").chance(1, 3) { gen_handle_faults(&mut Rng::derive(s, "faults"), handles) } else { vec![] };
+        let case = ShuttleCase { layout: l, scripts, sched_seed: Rng::derive(s, "schedule").next_u64(), pct: if r.chance(1, 2) { Some(r.range(1, 5) as u32) } else { None }, faults };
         serde_json::to_value(case).unwrap_or(Value::Null)
     }
     #[cfg(not(zip_rs_zip_verif))]
@@ -434,6 +484,7 @@ impl Scenario for ClonesShuttle {
         let outcome: Arc<Mutex<Option<Result<u64, String>>>> = Arc::new(Mutex::new(None));
         let out2 = outcome.clone();
         let scripts = c.scripts.clone();
+        let faults = c.faults.clone();
         let body = move || {
             let hook: Arc<dyn Fn() + Send + Sync> = Arc::new(|| shuttle::thread::sleep(std::time::Duration::from_secs(0)));
             let mk = || {
@@ -452,7 +503,12 @@ impl Scenario for ClonesShuttle {
                     }
                 }
             }
-            let base = match ZipArchive::new(mk()) {
+            let mut base_disk = mk();
+            if faults.iter().any(|f| !f.is_empty()) {
+                let q: std::collections::VecDeque<Policy> = (0..scripts.len()).map(|k| handle_policy(&Policy::Pure, &faults, k)).collect();
+                base_disk.clone_policies = Some(Arc::new(Mutex::new(q)));
+            }
+            let base = match ZipArchive::new(base_disk) {
                 Ok(a) => a,
                 Err(_) => return,
             };
@@ -477,7 +533,7 @@ impl Scenario for ClonesShuttle {
                     }
                 };
                 steps += log.len() as u64;
-                if log != solo[k] {
+                if !is_faulty(&faults, k) && log != solo[k] {
                     let at = log.iter().zip(solo[k].iter()).position(|(x, y)| x != y).unwrap_or(log.len().min(solo[k].len()));
                     *out2.lock().unwrap() = Some(Err(format!("handle {k}, log line {at}: concurrent {:?} vs alone {:?}", log.get(at), solo[k].get(at))));
                     return;
@@ -507,6 +563,9 @@ impl Scenario for ClonesShuttle {
                 ctx.io_events += steps;
                 ctx.sig = Some(mix(fnv(format!("{:?}", c.scripts).as_bytes()), mix(c.sched_seed, c.pct.unwrap_or(0) as u64)));
                 ctx.probe(if c.pct.is_some() { "pct_schedules" } else { "random_schedules" });
+                if c.faults.iter().any(|f| !f.is_empty()) {
+                    ctx.probe("a_handle_had_a_faulty_reader");
+                }
                 Verdict::Pass
             }
             Some(Err(e)) if e.starts_with("SKIP") => Verdict::Skip(e),
@@ -524,8 +583,15 @@ impl Scenario for ClonesShuttle {
             for i in 0..c.scripts.len() {
                 let mut v = c.scripts.clone();
                 v.remove(i);
-                out.push(ShuttleCase { scripts: v, ..c.clone() });
+                let mut fv = c.faults.clone();
+                if i < fv.len() {
+                    fv.remove(i);
+                }
+                out.push(ShuttleCase { scripts: v, faults: fv, ..c.clone() });
             }
+        }
+        if c.faults.iter().any(|f| !f.is_empty()) {
+            out.push(ShuttleCase { faults: vec![], ..c.clone() });
         }
         for i in 0..c.scripts.len() {
             for j in (0..c.scripts[i].len()).rev() {
